@@ -83,7 +83,7 @@ def generate(rng, tier):
     cases = []
     root = gen.fsroot()
     n = 0
-    nschema = 120 if tier == "quick" else 1500
+    nschema = 120 if tier == "quick" else 600
     per = 60 if tier == "quick" else 150
     schemas = [with_include(s) for s in hand_schemas()]
     for _ in range(nschema):
